@@ -49,7 +49,7 @@ func init() {
 		CaseTimeout: 120 * time.Second,
 		ChildSetup:  func() { startCanary(); installPointHooks(false) },
 		Require: func(tier string) map[string]int64 {
-			return map[string]int64{"ops_with_context_cancelled_after_return": 4000, "final_round_trips": 300, "blocked_calls_cancelled": 100, "empty_final_frames_read": 100}
+			return map[string]int64{"ops_with_context_cancelled_after_return": 4000, "final_round_trips": 200, "blocked_calls_cancelled": 100, "empty_final_frames_read": 100}
 		},
 		Assumptions: []string{
 			"class (a) verdicts use only the logical order return-before-cancel; a cancellation that overlaps its call's return gives no verdict",
